@@ -295,6 +295,9 @@ MUTANTS = {
         mut("unguarded-index", "day loop reads one past", [(M, "            let current_date = transactions[i].date;\n\n            // Find all transactions on this date", "            let current_date = transactions[i + 1].date;\n\n            // Find all transactions on this date")], ["R2:"]),
         mut("loop-guard-removed", "inner scan loses its bound", [(M, "            while day_end < transactions.len() && transactions[day_end].date == current_date {\n                day_end += 1;\n            }\n\n            // Add buys for the day (apply cost offsets and future reservations)", "            while transactions[day_end].date == current_date {\n                day_end += 1;\n            }\n\n            // Add buys for the day (apply cost offsets and future reservations)")], ["R2:"]),
         mut("print-before-calculate", "CLI prints a banner before calculating", [(MAIN, "            let config = cgt_core::Config::load_with_overrides()?;\n            let report = calculate(", "            println!(\"Calculating...\");\n            let config = cgt_core::Config::load_with_overrides()?;\n            let report = calculate(")], ["R4:main:fallible-after"]),
+        mut("offsets-index-shifted", "pre-pass writes the offset of the neighbouring line", [(M, "offsets[lot.transaction_idx]", "offsets[lot.transaction_idx + 1]")], ["R2:"]),
+        mut("day-slice-one-past", "the day's slice ends one line too far", [(M, "            for (offset, tx) in transactions[i..day_end].iter().enumerate() {", "            for (offset, tx) in transactions[i..day_end + 1].iter().enumerate() {")], ["R2:"]),
+        mut("needle-offset-mismatch", "slice skips more bytes than the needle that was found", [("crates/cgt-converter/src/schwab/transactions.rs", "        let actual_date = &clean_date[as_of_pos + 7..]; // Skip \" as of \" (7 chars)", "        let actual_date = &clean_date[as_of_pos + 8..]; // Skip \" as of \" (7 chars)")], ["R2:"]),
         mut("len-test-other-container", "first file indexed under a length test on the transactions", [(MAIN, "                            let default_path = if files.len() == 1 {", "                            let default_path = if transactions.len() == 1 {")], ["R2:"]),
         mut("pdf-no-exists-test", "default PDF path overwritten", [(MAIN, "                    if is_default && output_path.exists() {", "                    if is_default && false {")], ["R4:main:pdf-overwrite-guard"]),
         mut("validator-arm-dropped", "validator ignores negative fees", [(VALID, "    if fields.fees.amount < Decimal::ZERO {", "    if fields.fees.amount < Decimal::MIN {")], ["R5:validate"]),
@@ -390,7 +393,7 @@ _NEUTRAL_BASES = {
     "neutral-r14": ["C03", "C08", "C11", "C14", "C15"],
     "neutral-r16": ["C05", "C06", "C08", "C15", "C16", "C18", "C19", "C20"],
     "neutral-r15": ["C01", "C02", "C03", "C04", "C05", "C06", "C09", "C10", "C11", "C12", "C16"],
-    "neutral-r17": ["C13", "C14"],
+    "neutral-r17": ["C13", "C14", "C09"],
 }
 for _b, _ps in _NEUTRAL_BASES.items():
     for _p, _m in refactor(_b, _ps).items():
@@ -486,6 +489,18 @@ for _p in ("C02", "C05", "C10"):
 MUTANTS.setdefault("C10", []).append(mut("pool-helper-multiplies-unsplit", "delegated pool rescaling multiplies on UNSPLIT",
     [(M, "        match &tx.operation {\n            Operation::Split { ratio } => {\n                if let Some(pool) = self.pools.get_mut(&tx.ticker) {\n                    pool.quantity *= *ratio;\n                }\n            }\n            Operation::Unsplit { ratio } => {\n                if let Some(pool) = self.pools.get_mut(&tx.ticker)\n                    && *ratio != Decimal::ZERO\n                {\n                    pool.quantity /= *ratio;\n                }\n            }\n            Operation::Buy { .. }\n            | Operation::Sell { .. }\n            | Operation::Dividend { .. }\n            | Operation::Accumulation { .. }\n            | Operation::CapReturn { .. } => {}\n        }\n        Ok(())\n    }\n", "        if let Some(pool) = self.pools.get_mut(&tx.ticker) {\n            scale_share_count(&mut pool.quantity, tx);\n        }\n        Ok(())\n    }\n"), (M, "\nimpl Default for Matcher {", "\n/// Rescale a share count by the line's SPLIT / UNSPLIT ratio.\nfn scale_share_count(quantity: &mut Decimal, tx: &GbpTransaction) {\n    match &tx.operation {\n        Operation::Split { ratio } => {\n            *quantity *= *ratio;\n        }\n        Operation::Unsplit { ratio } => {\n            if *ratio != Decimal::ZERO {\n                *quantity *= *ratio;\n            }\n        }\n        Operation::Buy { .. }\n        | Operation::Sell { .. }\n        | Operation::Dividend { .. }\n        | Operation::Accumulation { .. }\n        | Operation::CapReturn { .. } => {}\n    }\n}\n\nimpl Default for Matcher {")], ["R2:pool handler:Unsplit"]))
 
+_CROSS6 = {
+    "C14": [on("neutral-r14", mut("r14+sell-price-positive", "carrier-struct validation also demands a positive SELL price",
+                                  [(MODELS, "            Operation::Sell { amount, .. } => Some(PositiveCheck::amount(*amount, \"SELL\")),",
+                                    "            Operation::Sell { price, .. } => Some(PositiveCheck::amount(price.amount, \"SELL\")),")], ["R5:json-reader"])),
+            on("neutral-r4", mut("r4+buy-price-positive", "tuple-style validation tests the BUY price instead of the quantity",
+                                 [(MODELS, "        Operation::Buy { amount, .. } => (*amount, \"BUY\"),", "        Operation::Buy { price, .. } => (price.amount, \"BUY\"),")], ["R5:json-reader"]))],
+    "C15": [on("neutral-r5", mut("r5+needle-len-plus-one", "slice starts one byte past the needle",
+                                 [("crates/cgt-converter/src/schwab/transactions.rs", "AS_OF_INFIX.len()", "AS_OF_INFIX.len() + 1")], ["R2:"]))],
+    "C17": [on("neutral-r12", mut("r12+legs-filtered", "view-based plain report shows only Section 104 legs",
+                                  [("crates/cgt-formatter-plain/src/lib.rs", "    for line in disposal.matches.iter().filter_map(match_line) {",
+                                    "    for line in disposal.matches.iter().filter(|m| m.rule == MatchRule::Section104).filter_map(match_line) {")], ["R7:"]))],
+}
 _CROSS5 = {
     "C15": [on("neutral-sm-f2", mut("smf2+len-test-off-by-one", "helper indexes the first file when the slice may be empty",
                                     [(MAIN, "    if files.len() == 1 {\n        files[0].with_extension(\"pdf\")", "    if files.len() != 1 {\n        files[0].with_extension(\"pdf\")")], ["R2:"]))],
@@ -506,5 +521,5 @@ _CROSS5 = {
                                   [(PARSER, "[ticker(t), total_value(tv), tax(tx)..] => {\n                (t, Operation::Dividend {\n                    total_value: tv,\n                    tax_paid: or_zero_gbp(tx),",
                                     "[ticker(t), total_value(tv), tax(tx)] => {\n                (t, Operation::Dividend {\n                    total_value: tv,\n                    tax_paid: or_zero_gbp(std::iter::once(tx)),")], ["R1:cmd_dividend"]))],
 }
-for _p, _ms in list(_CROSS.items()) + list(_CROSS2.items()) + list(_CROSS3.items()) + list(_CROSS4.items()) + list(_CROSS5.items()):
+for _p, _ms in list(_CROSS.items()) + list(_CROSS2.items()) + list(_CROSS3.items()) + list(_CROSS4.items()) + list(_CROSS5.items()) + list(_CROSS6.items()):
     MUTANTS.setdefault(_p, []).extend(_ms)
